@@ -262,6 +262,22 @@ theorem good2_end (o : ObjCfg) (P : List Sym) (st : OState) (h : Good2 c o P st)
     · rw [hce] at h; simp at h
     · exact h
 
+theorem closeOK_of_noclose (c : Codec) (o : ObjCfg) : ∀ (es : List Ev) (P : List Sym),
+    (∀ s, Ev.pkt s ∈ es → s.close = false) → CloseOK c o P es := by
+  intro es
+  induction es with
+  | nil => intro P _; trivial
+  | cons e es ih =>
+    intro P h
+    cases e with
+    | fdt l => exact ih P (fun s hs => h s (List.mem_cons_of_mem _ hs))
+    | pkt s =>
+      refine ⟨?_, ih _ (fun q hq => h q (List.mem_cons_of_mem _ hq))⟩
+      intro hs
+      rw [h s (List.mem_cons_self ..)] at hs
+      exact absurd hs (by simp)
+
+
 theorem runObj_append (rc : RxCfg) (o : ObjCfg) : ∀ (a b : List Ev) (st : OState),
     runObj c.canDecode rc o st (a ++ b) = runObj c.canDecode rc o (runObj c.canDecode rc o st a) b := by
   intro a
